@@ -18,7 +18,7 @@ func init() {
 			"NOT decided: disjointness and duration alignment of group spans (timestamp arithmetic), validity of cross-object references.",
 		Assumptions: append([]string{"effect analysis is intraprocedural with transitive mutator summaries over static calls; aliases are tracked through local definitions only"}, commonAssumptions...),
 		Technique:   "static analysis: who-may-write tables, definition provenance, post-dominance pairing on go/cfg, effect (mutation) analysis with must-not-follow error returns",
-		Rules:       "C16.R1 R2 R3 R4",
+		Rules:       "C16.R1 R2 R3 R4 R5 R6",
 	}
 }
 
@@ -302,6 +302,9 @@ func effectOrder(c *an.Ctx) {
 					if reportsOwnError(f, mn, er) {
 						continue
 					}
+					if rangeKeyLookupMiss(f, er.Node) {
+						continue // `for k := range m { v, ok := m[k]; if !ok { return err } }`: the branch is dead
+					}
 					bad = c.P.Pos(mn.Pos()) + " → " + c.P.Pos(er.Node.Pos())
 					break
 				}
@@ -410,5 +413,192 @@ func reportsOwnError(f *an.Fn, mutation ast.Node, ret an.Site) bool {
 func effectExceptions() map[string]string {
 	return map[string]string{
 		metaPkg + ":(*Data).CreateContinuousQuery": "returns the (insert=false, err) result of CreateContinuousQueryBase, which only stores the query on the path that returns insert=true, nil (that function is checked itself)",
+	}
+}
+
+// rangeKeyLookupMiss recognises an error return that is guarded by the miss of a
+// map lookup whose key is the range variable of an enclosing loop over the same
+// map: `for k := range m { v, ok := m[k]; if !ok { return err } }`.  The branch
+// cannot be taken, so it is not an exit of the function.
+func rangeKeyLookupMiss(f *an.Fn, ret ast.Node) bool {
+	var ifs *ast.IfStmt
+	for p := f.Parent(ret); p != nil; p = f.Parent(p) {
+		if x, ok := p.(*ast.IfStmt); ok {
+			ifs = x
+			break
+		}
+	}
+	if ifs == nil {
+		return false
+	}
+	un, ok := ast.Unparen(ifs.Cond).(*ast.UnaryExpr)
+	if !ok || un.Op.String() != "!" {
+		return false
+	}
+	okID, ok := ast.Unparen(un.X).(*ast.Ident)
+	if !ok {
+		return false
+	}
+	okObj := f.Info.Uses[okID]
+	if okObj == nil {
+		return false
+	}
+	// the single definition of ok: `v, ok := M[k]`
+	var look *ast.IndexExpr
+	defs := 0
+	ast.Inspect(f.Body, func(n ast.Node) bool {
+		as, isAs := n.(*ast.AssignStmt)
+		if !isAs || len(as.Lhs) != 2 || len(as.Rhs) != 1 {
+			return true
+		}
+		id, isID := as.Lhs[1].(*ast.Ident)
+		if !isID || f.Info.ObjectOf(id) != okObj {
+			return true
+		}
+		defs++
+		if ix, isIx := ast.Unparen(as.Rhs[0]).(*ast.IndexExpr); isIx {
+			look = ix
+		}
+		return true
+	})
+	if defs != 1 || look == nil {
+		return false
+	}
+	kID, ok := ast.Unparen(look.Index).(*ast.Ident)
+	if !ok {
+		return false
+	}
+	kObj := f.Info.Uses[kID]
+	for p := f.Parent(look); p != nil; p = f.Parent(p) {
+		rs, isR := p.(*ast.RangeStmt)
+		if !isR {
+			continue
+		}
+		rk, isID := rs.Key.(*ast.Ident)
+		if isID && f.Info.ObjectOf(rk) == kObj && types.ExprString(rs.X) == types.ExprString(look.X) {
+			return true
+		}
+	}
+	return false
+}
+
+func init() {
+	old := All["C16"].Run
+	All["C16"].Run = func(c *an.Ctx) {
+		old(c)
+		c16lookupAndVersions(c)
+	}
+}
+
+// c16lookupAndVersions:
+//   R5  "creating a shard group is a no-op when a live group already contains the
+//       timestamp" rests on a lookup that examines EVERY group (groups of different
+//       durations, deleted ones and other engine kinds are interleaved in the
+//       list, so no ordering argument may cut the scan short) and answers only
+//       with a group that Contains the timestamp.
+//   R6  a measurement's version counter (MstVersions) outlives the measurement:
+//       it is what keeps a re-created name from being handed out twice.
+func c16lookupAndVersions(c *an.Ctx) {
+	const M = metaPkg
+	r := c.Rule("C16.R5", "K-LOOPSELECT+K-GUARD", M+":(*RetentionPolicyInfo).ShardGroupByTimestampAndEngineType scans every group and returns only a group that contains the timestamp")
+	if f := fn(r, M+":RetentionPolicyInfo.ShardGroupByTimestampAndEngineType"); f != nil {
+		found := f.Find(an.MReturn("of a group", func(g *an.Fn, rs *ast.ReturnStmt) bool {
+			return len(rs.Results) == 1 && !an.IsNilIdent(g.Info, rs.Results[0])
+		}))
+		r.AddSites(found.Len())
+		if found.Len() == 0 {
+			r.Fail(f.Name+": no result", c.P.Pos(f.Body.Pos()), "no return of a group found")
+		} else {
+			f.Guarded(r, found, "a group is returned only if it Contains(timestamp)", an.AtomLike(`\.Contains\(p0\)$`, true))
+			f.Guarded(r, found, "a deleted group is never returned", an.AtomLike(`\.Deleted\(\)$`, false))
+		}
+		// the scan: one loop whose condition is the index bound only, no break
+		loops := 0
+		ast.Inspect(f.Body, func(n ast.Node) bool {
+			switch x := n.(type) {
+			case *ast.ForStmt:
+				loops++
+				if x.Cond != nil {
+					bad := false
+					ast.Inspect(x.Cond, func(k ast.Node) bool {
+						if _, ok := k.(*ast.SelectorExpr); ok {
+							// len(rpi.ShardGroups) is the only selector a bound may mention
+							if p, ok := f.Parent(k).(*ast.CallExpr); !ok || types.ExprString(p.Fun) != "len" {
+								bad = true
+							}
+							return false
+						}
+						return true
+					})
+					if bad {
+						r.Fail(f.Name+": scan bounded by element data", c.P.Pos(x.Cond.Pos()), "the lookup loop stops under `%s`, which depends on the groups' own times: groups of different durations, deleted groups and other engine kinds are interleaved in the list, so a live group containing the timestamp can lie beyond the stopping point and a duplicate overlapping group is created", types.ExprString(x.Cond))
+					}
+				}
+				ast.Inspect(x.Body, func(k ast.Node) bool {
+					if b, ok := k.(*ast.BranchStmt); ok && b.Tok.String() == "break" {
+						r.Fail(f.Name+": scan left early", c.P.Pos(b.Pos()), "the lookup loop is left by break before every group was examined")
+					}
+					return true
+				})
+			case *ast.RangeStmt:
+				loops++
+				ast.Inspect(x.Body, func(k ast.Node) bool {
+					if b, ok := k.(*ast.BranchStmt); ok && b.Tok.String() == "break" {
+						r.Fail(f.Name+": scan left early", c.P.Pos(b.Pos()), "the lookup loop is left by break before every group was examined")
+					}
+					return true
+				})
+			}
+			return true
+		})
+		r.AddSites(loops)
+		if loops != 1 {
+			r.Fail(f.Name+": scan shape", c.P.Pos(f.Body.Pos()), "expected one scan loop over the shard groups, found %d", loops)
+		}
+		// nothing narrows the scan beforehand (sort.Search and friends)
+		ast.Inspect(f.Body, func(n ast.Node) bool {
+			if ce, ok := n.(*ast.CallExpr); ok {
+				if callee := an.Callee(f.Info, ce); callee != nil && callee.Pkg() != nil && callee.Pkg().Path() == "sort" {
+					r.Fail(f.Name+": bisection", c.P.Pos(ce.Pos()), "the lookup narrows the scan with sort.%s: the shard-group list is not ordered by a key that makes containment monotone (mixed durations, deleted groups)", callee.Name())
+				}
+			}
+			return true
+		})
+	}
+
+	r6 := c.Rule("C16.R6", "K-WHOWRITES", M+": MstVersions entries (per-name version counters) are never deleted, only whole retention policies are")
+	n := 0
+	for _, d := range c.P.AllDecls() {
+		if !an.InPkg(d, M, "app/ts-meta/meta") {
+			continue
+		}
+		ast.Inspect(d.Decl.Body, func(k ast.Node) bool {
+			ce, ok := k.(*ast.CallExpr)
+			if !ok || len(ce.Args) != 2 {
+				return true
+			}
+			id, ok := ce.Fun.(*ast.Ident)
+			if !ok || id.Name != "delete" {
+				return true
+			}
+			n++
+			if sel, ok := ast.Unparen(ce.Args[0]).(*ast.SelectorExpr); ok && sel.Sel.Name == "MstVersions" {
+				r6.Fail(d.Name()+": delete(MstVersions)", c.P.Pos(ce.Pos()), "%s deletes a version counter: the next CREATE MEASUREMENT of that name starts again at version 0 and hands out an identifier (name_0000) that was already used", d.Name())
+			}
+			return true
+		})
+	}
+	r6.AddSites(n)
+	r6.Floor(10, "delete() calls in the catalogue packages")
+	// the next version is derived from the surviving counter
+	if f := fn(r6, M+":Data.createVersionMeasurement"); f != nil {
+		mv := obj(r6, M+":RetentionPolicyInfo.MstVersions")
+		if mv != nil {
+			reads := f.Find(an.MRead("rp.MstVersions", mv))
+			r6.AddSites(reads.Len())
+			if reads.Len() == 0 {
+				r6.Fail(f.Name+": version source", c.P.Pos(f.Body.Pos()), "createVersionMeasurement no longer derives the version from MstVersions")
+			}
+		}
 	}
 }
